@@ -59,6 +59,28 @@ theorem on_select (fixed : Bool) (code : List Instr) (s : St) (e : Expr) (sub : 
     have hidx : (e.eval s.env).toNat - 1 = k := by omega
     simp [hr, hn0, hnot, hidx, ht]
 
+/-! ### IF … THEN n / IF … GOTO n / … ELSE n -/
+
+/-- A line number after THEN (or GOTO) or after ELSE is a jump to that line, for every line number — 0
+    included: only an absent number (`none`) means "execute the clause as statements".  With a true
+    condition the THEN target is taken; with a false one the target of the ELSE that the search finds. -/
+theorem if_line_target (fixed : Bool) (code : List Instr) (s : St) (c : Expr) (t : Option Nat) (n : Nat)
+    (h : stmtAt code s.pc = some (.ifThen c t)) :
+    (c.eval s.env ≠ 0 → t = some n → stepWith fixed code s = jumpTo code s n) ∧
+    (c.eval s.env = 0 → ∀ j, scanElse (code.drop (s.pc + 1)) (s.pc + 1) 0 = .found j (some n) →
+      stepWith fixed code s = jumpTo code s n) := by
+  constructor
+  · intro hc ht; subst ht; simp [stepWith, h, hc]
+  · intro hc j hj; simp [stepWith, h, hc, hj]
+
+-- a loop closed by IF … THEN 0, IF … ELSE 0 on a program whose first line is line 0
+example : trace true [⟨0, [.let_ 0 (.bin .add (.var 0) (.lit 1))]⟩, ⟨10, [.print (.var 0)]⟩,
+                      ⟨20, [.ifThen (.bin .lt (.var 0) (.lit 3)) (some 0)]⟩, ⟨30, [.print (.lit 77)]⟩] 100 =
+      ([1, 2, 3, 77], .ended) ∧
+    trace true [⟨0, [.let_ 0 (.bin .add (.var 0) (.lit 1))]⟩, ⟨10, [.print (.var 0)]⟩,
+                ⟨20, [.ifThen (.bin .ge (.var 0) (.lit 3)) (some 30), .else_ (some 0)]⟩,
+                ⟨30, [.print (.lit 77)]⟩] 100 = ([1, 2, 3, 77], .ended) := by decide
+
 /-! ### mismatched NEXT / WEND / RETURN / FOR / WHILE / jump targets -/
 
 /-- The specific errors of mismatched control statements, for every program and every state:
